@@ -57,6 +57,18 @@ type script struct {
 	steps     []step
 	writePart int
 	probeMask int // which read-only probes run after a restart, before the download is started again
+	// abortAfter > 0: after that many writes the downloader gives the torrent
+	// up (TorrentArchive.DeleteTorrent) and starts it again from scratch, so
+	// the removal of a partial download is part of the enumerated history.
+	abortAfter int
+	// evictMode: how the blob is removed after the recovery and downloaded
+	// again (bit0: through the store's cache scope, as the cleanup job does,
+	// instead of TorrentArchive.DeleteTorrent; bit1: in a new process; bit2:
+	// another new process between the removal and the new download).
+	evictMode int
+	// evictEarly: remove the torrent right after the restart, while it may
+	// still be a partial download, instead of completing it first.
+	evictEarly bool
 }
 
 func (sc *script) piece(i int) []byte {
@@ -124,6 +136,9 @@ func genScript(s *simrt.Sim, tier string, small, bigPieces bool) *script {
 	sc := &script{blob: blob, n: n, pl: pl, mi: mi, d: d}
 	sc.writePart = []int{0, 0, 1000, 4096}[tp.Draw(4)]
 	sc.probeMask = 7 - tp.Draw(8)
+	sc.evictMode = tp.Draw(8)
+	sc.evictEarly = tp.Chance(300)
+	abort := tp.Chance(300)
 	// piece order: Fisher-Yates from the tape (all-zero tape = in order)
 	order := make([]int, n)
 	for i := range order {
@@ -159,6 +174,9 @@ func genScript(s *simrt.Sim, tier string, small, bigPieces bool) *script {
 			sc.steps = append(sc.steps, step{idx: ix, payload: sc.piece(ix), valid: true, kind: "correct"})
 		}
 	}
+	if abort {
+		sc.abortAfter = 1 + tp.Draw(len(sc.steps))
+	}
 	return sc
 }
 
@@ -193,7 +211,27 @@ func download(dir string, sc *script, pr *progress) func() {
 			pr.err = "CreateTorrent: " + err.Error()
 			return
 		}
-		for _, st := range sc.steps {
+		steps := sc.steps
+		if sc.abortAfter > 0 {
+			steps = append(append([]step(nil), sc.steps[:sc.abortAfter]...), step{kind: "abort"})
+			steps = append(steps, sc.steps...)
+		}
+		for _, st := range steps {
+			if st.kind == "abort" {
+				if tor.Complete() {
+					continue // a finished download is not given up (eviction is judged after the recovery)
+				}
+				if err := arch.DeleteTorrent(sc.d); err != nil {
+					pr.err = "DeleteTorrent of the partial download: " + err.Error()
+					return
+				}
+				if tor, err = arch.CreateTorrent(namespace, sc.d); err != nil {
+					pr.err = "CreateTorrent after DeleteTorrent: " + err.Error()
+					return
+				}
+				pr.stepsDone++
+				continue
+			}
 			err := tor.WritePiece(piecereader.NewBuffer(st.payload), st.idx)
 			if !st.valid && err == nil {
 				pr.err = fmt.Sprintf("WritePiece(%s payload, index %d) returned nil", st.kind, st.idx)
@@ -330,12 +368,10 @@ func (e *enum) clean(msg string) string {
 func (e *enum) restart(dir string, where string) func() {
 	return func() {
 		sc := e.sc
-		cads, err := store.NewCADownloadStore(storeConfig(dir, sc), tally.NoopScope)
-		if err != nil {
-			e.report("restart_failed", where, "NewCADownloadStore on the old directories: %s", e.clean(err.Error()))
+		cads, arch := e.newProcess(dir, where)
+		if cads == nil {
 			return
 		}
-		arch := agentstorage.NewTorrentArchive(tally.NoopScope, cads, metaInfoStub{sc.mi})
 		if sc.probeMask&1 != 0 {
 			if info, err := arch.Stat(namespace, sc.d); err == nil {
 				e.s.Probe("stat_after_restart_ok")
@@ -364,44 +400,96 @@ func (e *enum) restart(dir string, where string) func() {
 				e.s.Probe("get_torrent_after_restart_err")
 			}
 		}
-		// start the download again
-		t, err := arch.CreateTorrent(namespace, sc.d)
-		if err != nil {
-			e.report("download_cannot_restart", where, "CreateTorrent after the restart fails: %s", e.clean(err.Error()))
-			return
-		}
-		if !e.checkTorrent(cads, t, where, "CreateTorrent") {
-			return
-		}
-		missing := t.MissingPieces()
-		// oracle-visible state after a restart: which pieces survived, committed or not
-		h := uint64(1469598103934665603)
-		for _, v := range append([]int{sc.n, len(sc.blob) & 0xfff, b2i(t.Complete())}, missing...) {
-			h = (h ^ uint64(v)) * 1099511628211
-		}
-		e.s.State(h)
-		if len(missing) < sc.n {
-			e.s.Probe("progress_survived_restart")
-		}
-		for _, i := range missing {
-			if i < 0 || i >= sc.n {
-				e.report("torrent_misdescribed", where, "MissingPieces() contains %d (pieces=%d)", i, sc.n)
-				return
-			}
-			if err := t.WritePiece(piecereader.NewBuffer(sc.piece(i)), i); err != nil {
-				e.report("download_cannot_restart", where, "after the restart WritePiece(correct payload, missing piece %d) fails: %s", i, e.clean(err.Error()))
+		if !sc.evictEarly {
+			if !e.completeDownload(cads, arch, where, "after the restart") {
 				return
 			}
 		}
-		if !t.Complete() {
-			e.report("download_cannot_restart", where, "after the restart every piece reported missing (%v) was written successfully but Complete()=false", missing)
+		// ---- the blob is removed and the same digest is downloaded again ------
+		if sc.evictMode&2 != 0 {
+			if cads, arch = e.newProcess(dir, where); cads == nil {
+				return
+			}
+		}
+		var derr error
+		if sc.evictMode&1 != 0 && !sc.evictEarly {
+			derr = cads.Cache().DeleteFile(sc.d.Hex())
+		} else {
+			derr = arch.DeleteTorrent(sc.d)
+		}
+		if derr != nil {
+			e.s.Probe("evict_error")
+		} else {
+			e.s.Probe("evicted")
+		}
+		if sc.evictMode&4 != 0 {
+			if cads, arch = e.newProcess(dir, where); cads == nil {
+				return
+			}
+		}
+		if _, ok := e.cacheServes(cads, where, "after the blob was removed"); !ok {
 			return
 		}
-		served, ok := e.cacheServes(cads, where, "restarted download completed")
-		if ok && !served {
-			e.report("complete_not_served", where, "restarted download reports Complete() but the cache does not serve the blob")
+		e.completeDownload(cads, arch, where, "after the blob was removed and its download started from scratch")
+	}
+}
+
+func (e *enum) newProcess(dir, where string) (*store.CADownloadStore, *agentstorage.TorrentArchive) {
+	cads, err := store.NewCADownloadStore(storeConfig(dir, e.sc), tally.NoopScope)
+	if err != nil {
+		e.report("restart_failed", where, "NewCADownloadStore on the old directories: %s", e.clean(err.Error()))
+		return nil, nil
+	}
+	return cads, agentstorage.NewTorrentArchive(tally.NoopScope, cads, metaInfoStub{e.sc.mi})
+}
+
+// completeDownload starts the download (again) through the public path and
+// drives it to completion: CreateTorrent, a correct WritePiece for every piece
+// reported missing, Complete(), byte-identical cache file. Everything the
+// torrent claims on the way is judged by checkTorrent.
+func (e *enum) completeDownload(cads *store.CADownloadStore, arch *agentstorage.TorrentArchive, where, phase string) bool {
+	sc := e.sc
+	t, err := arch.CreateTorrent(namespace, sc.d)
+	if err != nil {
+		e.report("download_cannot_restart", where, "CreateTorrent %s fails: %s", phase, e.clean(err.Error()))
+		return false
+	}
+	if !e.checkTorrent(cads, t, where, "CreateTorrent "+phase) {
+		return false
+	}
+	missing := t.MissingPieces()
+	// oracle-visible state: which pieces survived, committed or not
+	h := uint64(1469598103934665603)
+	for _, v := range append([]int{sc.n, len(sc.blob) & 0xfff, b2i(t.Complete())}, missing...) {
+		h = (h ^ uint64(v)) * 1099511628211
+	}
+	e.s.State(h)
+	if len(missing) < sc.n {
+		e.s.Probe("progress_kept")
+	}
+	for _, i := range missing {
+		if i < 0 || i >= sc.n {
+			e.report("torrent_misdescribed", where, "%s: MissingPieces() contains %d (pieces=%d)", phase, i, sc.n)
+			return false
+		}
+		if err := t.WritePiece(piecereader.NewBuffer(sc.piece(i)), i); err != nil {
+			e.report("download_cannot_restart", where, "%s WritePiece(correct payload, missing piece %d) fails: %s", phase, i, e.clean(err.Error()))
+			return false
 		}
 	}
+	if !t.Complete() {
+		e.report("download_cannot_restart", where, "%s every piece reported missing (%v) was written successfully but Complete()=false", phase, missing)
+		return false
+	}
+	served, ok := e.cacheServes(cads, where, "download completed "+phase)
+	if !ok {
+		return false
+	}
+	if !served {
+		e.report("complete_not_served", where, "download %s reports Complete() but the cache does not serve the blob", phase)
+		return false
+	}
+	return true
 }
 
 func b2i(b bool) int {
@@ -439,7 +527,7 @@ func body(s *simrt.Sim, tier string) {
 	s.Disk().TornOK = torn
 	s.Disk().OpLogOn = true
 	e := &enum{s: s, sc: sc}
-	s.Logf("script pieces=%d pl=%d len=%d steps=%d mask=%d", sc.n, sc.pl, len(sc.blob), len(sc.steps), sc.probeMask)
+	s.Logf("script pieces=%d pl=%d len=%d steps=%d mask=%d abort=%d evict=%d early=%v", sc.n, sc.pl, len(sc.blob), len(sc.steps), sc.probeMask, sc.abortAfter, sc.evictMode, sc.evictEarly)
 
 	// ---- reference execution: count the mutating disk ops -----------------
 	d0 := newDir(s)
@@ -511,7 +599,7 @@ func body(s *simrt.Sim, tier string) {
 		}
 	}
 	kit.SetSample(map[string]any{"pieces": sc.n, "piece_length": sc.pl, "blob_bytes": len(sc.blob), "script_writes": len(sc.steps),
-		"mutating_disk_ops": m, "crash_points_executed": points, "double_crash_points_executed": doubles, "torn_writes": s.Disk().TornOK, "violating_crash_points": len(e.viol)})
+		"mutating_disk_ops": m, "abort_after_writes": sc.abortAfter, "evict_mode": sc.evictMode, "evict_before_completion": sc.evictEarly, "crash_points_executed": points, "double_crash_points_executed": doubles, "torn_writes": s.Disk().TornOK, "violating_crash_points": len(e.viol)})
 	if len(e.viol) == 0 {
 		return
 	}
@@ -571,7 +659,7 @@ func TestC04(t *testing.T) {
 		PerRun:      func() { curDir = "" },
 		Real:        []string{"lib/store.CADownloadStore", "lib/store/base (FileOp, FileEntry, FileMap, compareAndWriteFile)", "agentstorage.TorrentArchive", "agentstorage.Torrent", "piecereader", "core.MetaInfo", "lib/store/metadata"},
 		Stub:        []string{"metainfoclient.Client (returns the true metainfo)", "tally.NoopScope", "store cleanup jobs disabled", "file system = tmpfs through shim/os, process-crash model (completed system calls persist)"},
-		Rule:        "one run = one download script (1..12 pieces quick / 1..40 thorough, blob <=64 KiB, drawn piece order, ~15% bad payloads, duplicates) executed M+1 times: once to count the M mutating disk ops, then once per crash point k=1..M (process killed before op k), each followed by restart + read-only probes (Stat, cache read, GetTorrent per drawn mask) + restarted download to completion; thorough adds, for 30% of (smaller) scripts, every second crash point of the recovery run, and torn (page-prefix) writes; evaluations = scripts, extra.crash_points_executed = crash points",
+		Rule:        "one run = one download script (1..12 pieces quick / 1..40 thorough, blob <=64 KiB, drawn piece order, ~15% bad payloads, duplicates) executed M+1 times: once to count the M mutating disk ops, then once per crash point k=1..M (process killed before op k), each followed by restart + read-only probes (Stat, cache read, GetTorrent per drawn mask) + restarted download to completion + removal of the blob through the public API (drawn: DeleteTorrent or cache-scope DeleteFile, same or new process, before or after completing) + a new download of the same digest from scratch; 30% of scripts give a partial download up (DeleteTorrent) and start over inside the enumerated history; thorough adds, for 30% of (smaller) scripts, every second crash point of the recovery run, and torn (page-prefix) writes; evaluations = scripts, extra.crash_points_executed = crash points",
 		Assumptions: []string{"process-crash model: every completed system call persists, no reordering, no power loss", "the metainfo service answers after the restart", "single sequential downloader per agent process (concurrency is C03)"},
 	})
 }
